@@ -91,6 +91,14 @@ def translate(ctx):
     except Exception as e:
         ctx.refusal('trace(%s as %s)' % (fn, name), 'tracer crashed: %r' % e)
         return None
+    # statelessness as far as the AST shows (model statement: Stateless.v; implementation: oracle call sequences)
+    try:
+        for fn in ('cowat', 'supst', 'sat', 'tsat', 'b23p', 'region', 'separated_steam_fraction'):
+            why = TB.stateful_uses(tt, fn, allowed_tables=('cowat_a', 'cowat_sa', 'supst_b', 'supst_sb'))
+            if why: raise TB.Refusal('t2thermo.%s is not a function of its arguments only: %s' % (fn, '; '.join(why)))
+    except TB.Refusal as e:
+        ctx.refusal('stateless(t2thermo.py)', e)
+        return None
     # comparison structure: what symbolic execution met == what the AST contains
     try:
         for (m, fn), variants in CROSS.items():
